@@ -47,7 +47,7 @@ CHECKS = {
              "every worker starts a prefix of its own collection in order, exactly the whole collection when the session ends as finished, and the controller never raises.", design="5/C08", technique=TECH),
  "C09": dict(text=SYS + "Proved (all states/collections): diff None iff equal; initial disagreement => no command, one failed collect report per disagreeing worker; disagreeing replacement is never "
              "registered, gets no tests, is shut down; invariant over every reachable scheduler state: whoever is sent positions registered exactly the reference collection. SYSTEM level (SystemCorollariesColl.v, SystemGaps3*.v; all modes, every schedule with crashes): "
-             "all registered collections equal the reference and are what the worker really collected; whoever is sent a run / run-all command is registered with the reference collection after that step. The TEXT of the collection error (report.py): the message the implementation produces for generated pairs of collections is run through a checker written in Gallina (Model/CollDiff.v: reads the sentence naming both workers, the ---/+++ lines, the @@ hunks; applies them to the first collection and demands the second); proved for every pair of id lists and every text (CollDiffProofs.v): an accepted message names both workers, satisfies old + added = new + deleted for every id, puts every id that differs on a -/+ line, invents no id, states true hunk lengths, and 'no message' is accepted exactly for equal collections. difflib's choice of which edit to show is not modelled (translation validation).", design="5/C09", technique=TECH + "; verified checker over the implementation's output for the error text"),
+             "all registered collections equal the reference and are what the worker really collected; whoever is sent a run / run-all command is registered with the reference collection after that step. The TEXT of the collection error (report.py): the message the implementation produces for generated pairs of collections is run through a checker written in Gallina (Model/CollDiff.v: reads the sentence naming both workers, the ---/+++ lines, the @@ hunks; applies them to the first collection and demands the second); proved for every pair of id lists and every text (CollDiffProofs.v): an accepted message names both workers, satisfies old + added = new + deleted for every id, puts every id that differs on a -/+ line, invents no id, states true hunk lengths, is an edit script (both collections are one kept list interleaved with the -/+ ids), and 'no message' is accepted exactly for equal collections. difflib's choice of which edit to show is not modelled (translation validation).", design="5/C09", technique=TECH + "; verified checker over the implementation's output for the error text"),
  "C10": dict(text=SYS + CTL + "Proved for EVERY event sequence and scheduler state: replacements started <= max(0, budget); budget <= 0 disables replacement; one death spawns at most one replacement. SYSTEM level (SystemCorollaries.v, all modes, every schedule): the replacements started in a whole run never exceed max(0, budget); budget <= 0 means none. "
              "Known findings: no budget at all when neither -n nor the option is given; a budget exhausted by deaths of workers that held no test ends the run with a success status.", design="5/C10", technique=TECH),
  "C11": dict(text=SYS + CTL + "Proved (every event sequence): the stop reason is sticky, triggers shutdown in the same iteration, is set exactly by the maxfail rule or a worker's stop request; late ready "
